@@ -241,7 +241,7 @@ def check(prop, tier, seed, replay=None):
         mcfs.append((mcwd, pool.submit(model_check, part["family"], cfgs, bounds(b), mcwd, 8, 3000, False, refine)))
         gx_cfgs, gx_depth = part["genx"][tier]
         gb = bounds(dict(part["mc"][tier][1], Depth=gx_depth))
-        hx, gxstat = gen_exhaustive(part["family"], gx_cfgs, gb, wd, tail_k=(8 if tier == Q else 24), seed=seed)
+        hx, gxstat = gen_exhaustive(part["family"], gx_cfgs, gb, wd, tail_k=(8 if tier == Q else 24), seed=seed, tail_budget=(60000 if tier == Q else 400000))
         cap = 12000 if tier == Q else 60000
         gx_total = len(hx)
         if len(hx) > cap:      # keep a seeded sample; the evidence then does not claim exhaustiveness
